@@ -3,8 +3,8 @@
 package harness
 
 import (
-	"crypto/tls"
 	"context"
+	"crypto/tls"
 	"encoding/json"
 	"fmt"
 	"strings"
@@ -18,21 +18,24 @@ import (
 )
 
 type c12Case struct {
-	Stream    []EnvSpec `json:"stream"`
-	TLS       bool      `json:"tls,omitempty"`
-	LimitSlack int      `json:"limitSlack,omitempty"`   // > 0: the receiver's ReadLimit is the largest frame of the stream plus this many bytes (it bounds one envelope, not the connection)
-	TLS12     bool      `json:"tls12,omitempty"`        // TLS capped at version 1.2
-	SenderEnd bool      `json:"senderCloses,omitempty"` // the sender closes its transport right after its last Send (under TLS the close notification follows the data at once)
-	WritePlan []Fault   `json:"writePlan,omitempty"` // consumed by the sender's connection writes
-	ReadPlan  []Fault   `json:"readPlan,omitempty"`  // consumed by the receiver's connection reads
-	ReadChunk int       `json:"readChunk,omitempty"` // every read delivers at most this many bytes
-	Coalesce  bool      `json:"coalesce,omitempty"`  // the receiver starts after the sender has finished
-	PipeCap   int       `json:"pipeCap,omitempty"`
-	RecvCtxMs int       `json:"recvCtxMs,omitempty"` // every Receive gets a deadline this far ahead; one that ends on its context is followed by another Receive
-	SendCtx   []string  `json:"sendCtx,omitempty"`   // per envelope: "" (20 s deadline) | "deadline:<ms>" | "cancel:<ms>" (cancelled after that long, no deadline)
+	Stream     []EnvSpec `json:"stream"`
+	TLS        bool      `json:"tls,omitempty"`
+	RefusedAt  []int     `json:"refusedAt,omitempty"`    // before these envelopes (index >= 1, no TLS) the peer writes a relative of the previous envelope that the decoder refuses (its id is a number): Receive answers it with an error, and the envelopes around it are unaffected
+	LimitSlack int       `json:"limitSlack,omitempty"`   // > 0: the receiver's ReadLimit is the largest frame of the stream plus this many bytes (it bounds one envelope, not the connection)
+	TLS12      bool      `json:"tls12,omitempty"`        // TLS capped at version 1.2
+	SenderEnd  bool      `json:"senderCloses,omitempty"` // the sender closes its transport right after its last Send (under TLS the close notification follows the data at once)
+	WritePlan  []Fault   `json:"writePlan,omitempty"`    // consumed by the sender's connection writes
+	ReadPlan   []Fault   `json:"readPlan,omitempty"`     // consumed by the receiver's connection reads
+	ReadChunk  int       `json:"readChunk,omitempty"`    // every read delivers at most this many bytes
+	Coalesce   bool      `json:"coalesce,omitempty"`     // the receiver starts after the sender has finished
+	PipeCap    int       `json:"pipeCap,omitempty"`
+	RecvCtxMs  int       `json:"recvCtxMs,omitempty"` // every Receive gets a deadline this far ahead; one that ends on its context is followed by another Receive
+	SendCtx    []string  `json:"sendCtx,omitempty"`   // per envelope: "" (20 s deadline) | "deadline:<ms>" | "cancel:<ms>" (cancelled after that long, no deadline)
 }
 
 type c12Obs struct {
+	RefusedSent  int            `json:"refusedSent,omitempty"`
+	RefusedSeen  int            `json:"refusedSeen,omitempty"`
 	SendErr      []string       `json:"sendErr"` // per attempted envelope: "" = Send returned nil, "-" = not attempted
 	Recv         []interface{}  `json:"-"`
 	RecvIDs      []string       `json:"recvIds"`
@@ -112,6 +115,9 @@ func runC12(c *c12Case) *c12Obs {
 		if scfg == nil {
 			scfg = &lime.TCPConfig{}
 		}
+		if len(c.RefusedAt) > 0 {
+			maxFrame += len(`,"id":7`) // the refused relatives are that much longer than the envelope they derive from
+		}
 		scfg.ReadLimit = int64(maxFrame + c.LimitSlack)
 	}
 	ts := lime.VerifNewTCPTransport(cl, ccfg, false) // sender
@@ -150,6 +156,15 @@ func runC12(c *c12Case) *c12Obs {
 		for i, v := range built {
 			if !ts.Connected() {
 				break
+			}
+			// (the harness writes these bytes itself: only on connections without scripted write faults, which would hit them too)
+			if !c.TLS && len(c.WritePlan) == 0 && i > 0 && containsInt(c.RefusedAt, i) && obs.SendErr[i-1] == "" {
+				if pb, err := json.Marshal(built[i-1]); err == nil && len(pb) > 2 {
+					refused := append(append([]byte{}, pb[:len(pb)-1]...), []byte(`,"id":7}`+"\n")...)
+					if _, err := cl.Write(refused); err == nil {
+						obs.RefusedSent++
+					}
+				}
 			}
 			ctx, cancel := context.WithTimeout(context.Background(), 20*time.Second)
 			if i < len(c.SendCtx) && c.SendCtx[i] != "" {
@@ -198,6 +213,11 @@ func runC12(c *c12Case) *c12Obs {
 				timedOut := ctx.Err() != nil
 				cancel()
 				if err != nil {
+					if strings.Contains(err.Error(), "cannot unmarshal number") && obs.RefusedSeen < len(c.RefusedAt) && tr.Connected() {
+						// the refused relative: answered with an error, as it must be; the receiver asks again
+						obs.RefusedSeen++
+						continue
+					}
 					if c.RecvCtxMs > 0 && timedOut && obs.RecvTimeouts < 60 && tr.Connected() {
 						// the receiver's own deadline: it simply asks again (whatever it is handed then must still be genuine)
 						obs.RecvTimeouts++
@@ -292,6 +312,9 @@ func judgeC12(c *c12Case, obs *c12Obs, o *Outcome) {
 	}
 	if c.LimitSlack > 0 {
 		o.Class("read-limit-just-above-the-largest-frame")
+	}
+	if obs.RefusedSent > 0 {
+		o.Class("refused-frames-interleaved")
 	}
 	o.NonTrivial = fc != "no-fault" || obs.Reads > obs.Frames+1
 	if strings.HasPrefix(obs.RecvErr, "harness:") {
@@ -469,6 +492,18 @@ func TestC12Sweep(t *testing.T) {
 			run(&c12Case{Stream: big, PipeCap: cap, TLS: true, ReadPlan: []Fault{{Op: FStall, D: 7000}}, SendCtx: []string{ctx0}})
 		}
 	}
+	// refused relatives between the envelopes: what is refused leaves nothing behind in what follows
+	mixed := c12Stream(8, 10)
+	for _, chunk := range []int{0, 1, 7} {
+		for _, coalesce := range []bool{false, true} {
+			var all []int
+			for i := 1; i < len(mixed); i++ {
+				all = append(all, i)
+				run(&c12Case{Stream: mixed, RefusedAt: []int{i}, ReadChunk: chunk, Coalesce: coalesce})
+			}
+			run(&c12Case{Stream: mixed, RefusedAt: all, ReadChunk: chunk, Coalesce: coalesce})
+		}
+	}
 	// a read limit just above the largest frame bounds one envelope, not the connection: long streams under chunking
 	long := c12Stream(40, 300)
 	for _, slack := range []int{1, 64} {
@@ -580,6 +615,12 @@ func TestC12(t *testing.T) {
 			c.TLS12 = rapid.Bool().Draw(rt, "tls12")
 		}
 		c.SenderEnd = rapid.IntRange(0, 2).Draw(rt, "senderCloses") == 0
+		if !c.TLS && n > 1 && rapid.IntRange(0, 3).Draw(rt, "refused") == 0 {
+			k := rapid.IntRange(1, 3).Draw(rt, "nrefused")
+			for j := 0; j < k; j++ {
+				c.RefusedAt = append(c.RefusedAt, rapid.IntRange(1, n-1).Draw(rt, "refusedAt"))
+			}
+		}
 		if rapid.IntRange(0, 3).Draw(rt, "limit") == 0 {
 			c.LimitSlack = rapid.SampledFrom([]int{1, 64, 600}).Draw(rt, "limitSlack")
 		}
@@ -648,4 +689,13 @@ func TestC12Replay(t *testing.T) {
 		judgeC12(&c, obs, o)
 		rec.Eval(&c, o)
 	}
+}
+
+func containsInt(l []int, x int) bool {
+	for _, v := range l {
+		if v == x {
+			return true
+		}
+	}
+	return false
 }
